@@ -15,7 +15,7 @@ pub const DEF: PropDef = PropDef {
     run,
     replay,
     level: "fault_enumeration",
-    rule: "fault enumeration: (handshake string, suite, message index i, alteration of message i) on an otherwise honest session; alterations: single-bit flips (first/last bit of every field and tag + random ones; ALL bits in the thorough tier), byte set, every truncation at field boundaries +-1 (ALL lengths in thorough), extension by 1/16/64, random multi-byte edits, replacement by every earlier message of the session, by the same-index message of a parallel session with all-different keys and (interactive patterns) of a parallel session with the same static keys and fresh ephemerals. Alterations that leave the bytes unchanged are discarded. Oracle: after delivering the altered message and continuing honestly, it never happens that every call succeeded and both parties report finished; if the altered bytes touch an encrypted field (or the length changed while the payload is encrypted) the receiving read itself returns Err. Non-trivial = altered != original and the unaltered session completes; distinct by (name, suite, i, alteration)",
+    rule: "fault enumeration: (handshake string, suite, message index i, alteration of message i) on an otherwise honest session; alterations: single-bit flips (first/last bit of every field and tag + random ones; ALL bits in the thorough tier), byte set, every truncation at field boundaries +-1 (ALL lengths in thorough), extension by 1/16/64, random multi-byte edits, replacement by every earlier message of the session, by the same-index message of a parallel session with all-different keys and (interactive patterns) of a parallel session with the same static keys and fresh ephemerals. The same alteration set is applied to messages with LARGE payloads (1000 .. 4 KiB+-1 .. 9000 .. 12 KiB .. 32 KiB .. the per-message maximum) for every base pattern on a 25519 and a P-256 suite. Alterations that leave the bytes unchanged are discarded. Oracle: after delivering the altered message and continuing honestly, it never happens that every call succeeded and both parties report finished; if the altered bytes touch an encrypted field (or the length changed while the payload is encrypted) the receiving read itself returns Err. Non-trivial = altered != original and the unaltered session completes; distinct by (name, suite, i, alteration)",
     technique: "fault enumeration over message alterations with field maps from the reference model; proptest for random multi-byte edits",
     assumptions: &[
         "for one-way patterns a complete message of a parallel session of the same initiator (same static keys, PSKs, prologue) is a genuine message in its own right and is not an alteration the responder could detect; that substitution is generated only for interactive patterns",
@@ -58,7 +58,7 @@ fn oracle(c: &Case, acc: &mut Acc) -> CaseResult {
     let mut earlier: Vec<Vec<u8>> = Vec::new();
     for k in 0..c.idx {
         let (w, r) = if k % 2 == 0 { (&mut pair.i, &mut pair.r) } else { (&mut pair.r, &mut pair.i) };
-        let m = hs_write(w, &spec.payload(k, c.plen), 65535 + 16).map_err(|x| Fail::setup(format!("{name}: prefix write {k}: {}", e(&x))))?;
+        let m = hs_write(w, &spec.payload(k, other_plen(c.plen)), 65535 + 16).map_err(|x| Fail::setup(format!("{name}: prefix write {k}: {}", e(&x))))?;
         hs_read(r, &m, 65535).map_err(|x| Fail::setup(format!("{name}: prefix read {k}: {}", e(&x))))?;
         earlier.push(m);
     }
@@ -208,7 +208,7 @@ fn oracle(c: &Case, acc: &mut Acc) -> CaseResult {
         // continue honestly
         for k in c.idx + 1..nm {
             let (w, r) = if k % 2 == 0 { (&mut pair.i, &mut pair.r) } else { (&mut pair.r, &mut pair.i) };
-            let m = match hs_write(w, &spec.payload(k, c.plen), 65535 + 16) {
+            let m = match hs_write(w, &spec.payload(k, other_plen(c.plen)), 65535 + 16) {
                 Ok(m) => m,
                 Err(_) => {
                     all_ok = false;
@@ -242,6 +242,15 @@ fn oracle(c: &Case, acc: &mut Acc) -> CaseResult {
 }
 
 /// Like drive_to, but with ephemerals derived from `eseed` (same statics/psks/prologue).
+/// payload length of the messages other than the altered one (large payloads only there)
+fn other_plen(plen: usize) -> usize {
+    if plen > 400 {
+        7
+    } else {
+        plen
+    }
+}
+
 fn drive_with_ephemerals(spec: &SessionSpec, idx: usize, eseed: u64, plen: usize) -> Result<Pair, Fail> {
     use crate::instr::SharedRng;
     let p256 = spec.suite.dh == DhKind::P256;
@@ -254,7 +263,7 @@ fn drive_with_ephemerals(spec: &SessionSpec, idx: usize, eseed: u64, plen: usize
     let mut pair = Pair { i, r, rng_i, rng_r };
     for k in 0..idx {
         let (w, r) = if k % 2 == 0 { (&mut pair.i, &mut pair.r) } else { (&mut pair.r, &mut pair.i) };
-        let m = hs_write(w, &spec.payload(k, plen), 65535 + 16).map_err(|x| Fail::setup(format!("parallel prefix write {k}: {}", e(&x))))?;
+        let m = hs_write(w, &spec.payload(k, other_plen(plen)), 65535 + 16).map_err(|x| Fail::setup(format!("parallel prefix write {k}: {}", e(&x))))?;
         hs_read(r, &m, 65535).map_err(|x| Fail::setup(format!("parallel prefix read {k}: {}", e(&x))))?;
     }
     Ok(pair)
@@ -368,6 +377,37 @@ pub fn run(ctx: &Ctx) {
     ctx.note(format!("{} handshake strings, {} boundary/substitution alterations", names.len(), cases.len()));
     ctx.run_list("boundary_alterations", &cases, false, oracle);
 
+    // large handshake payloads (implementations pick decrypt paths by size): every base pattern,
+    // a 25519 and a P-256 suite, every message, payload lengths around 4 KiB / 9000 / 12 KiB /
+    // 16 KiB / 32 KiB and the per-message maximum, with the boundary alteration set
+    {
+        const LADDER: [usize; 14] = [1000, 4079, 4080, 4081, 4096, 4097, 5000, 9000, 12272, 12289, 16384, 32768, 65000, usize::MAX];
+        let mut big = Vec::new();
+        for (ni, hs) in some_hs_names(if thorough { 1 } else { 0 }).iter().enumerate() {
+            for half in 0..2 {
+                let suite = suites[half * 12 + (ni * 5 + 1) % 12];
+                let mut spec = SessionSpec::simple(hs.clone(), suite, mix(ctx.seed, 9000 + (ni * 2 + half) as u64));
+                if ring_covers(suite) {
+                    spec.backend_i = crate::instr::BACKENDS[(ni + 1) % 3];
+                    spec.backend_r = crate::instr::BACKENDS[ni % 3];
+                }
+                for idx in 0..spec.n_msgs() {
+                    let max = 65535 - spec.layouts()[idx].overhead;
+                    for k in 0..ctx.tier.pick(3usize, 14) {
+                        let plen = LADDER[(ni * 3 + idx * 5 + half * 7 + k * 5) % 14].min(max);
+                        for a in alterations(&spec, idx, plen, false, false, mix(ctx.seed, (ni * 10 + idx + k * 1000) as u64)) {
+                            if matches!(a, Alt::Earlier(_)) {
+                                continue;
+                            }
+                            big.push(Case { spec: spec.clone(), idx, alt: a, plen });
+                        }
+                    }
+                }
+            }
+        }
+        ctx.run_list("large_payload_alterations", &big, false, oracle);
+    }
+
     // exhaustive: all single-bit flips and all truncation lengths of every message
     let mut ex = Vec::new();
     let base = some_hs_names(0);
@@ -404,7 +444,7 @@ pub fn run(ctx: &Ctx) {
         ctx.tier.pick(6000, 100_000),
         || {
             let all = all.clone();
-            (any::<u16>(), 0usize..24, any::<u64>(), any::<u16>(), prop_oneof![4 => 0usize..40, 1 => 40usize..400], any::<u64>(), 1u8..12, 0u8..7).prop_map(move |(ni, si, ks, mi, plen, es, cnt, kind)| {
+            (any::<u16>(), 0usize..24, any::<u64>(), any::<u16>(), prop_oneof![8 => 0usize..40, 2 => 40usize..400, 1 => 400usize..70000], any::<u64>(), 1u8..12, 0u8..7).prop_map(move |(ni, si, ks, mi, plen, es, cnt, kind)| {
                 let suites = all_suites();
                 let mut spec = SessionSpec::simple(all[pick(ni, all.len())].clone(), suites[si], mix(seed, ks));
                 if ring_covers(suites[si]) && ks % 2 == 1 {
@@ -412,6 +452,7 @@ pub fn run(ctx: &Ctx) {
                     spec.backend_r = crate::instr::Backend::RingFirst;
                 }
                 let idx = pick(mi, spec.n_msgs());
+                let plen = plen.min(65535 - spec.layouts()[idx].overhead);
                 let total = spec.layouts()[idx].overhead + plen;
                 let alt = match kind {
                     0 => Alt::Flip((es % total as u64) as usize, (es >> 32) as u8 % 8),
